@@ -16,6 +16,7 @@ PROP = "C05"
 PACK = 40            # generated units per source file
 JENV = {"JAVA_TOOL_OPTIONS": "-Xss128m"}   # the unparser and evaluator are recursive operators over ~150 tokens
 NPROC = 12
+ALONE_MAX = 150     # programs observed one per file after three rounds of packing (more only when nearly every file fails)
 TMO = 420            # one ego process (the machine is shared and often saturated)
 
 # ---------------------------------------------------------------- projection: tokens -> text
@@ -684,10 +685,19 @@ def run():
             vi = int(u.uid.rsplit(".v", 1)[1])
             groups.setdefault((u.v["shape"], vi), []).append(u)
         pending = [(shape, vi, us) for (shape, vi), us in sorted(groups.items())]
-        recs, nproc, rounds, alone = [], 0, 0, 0
+        recs, nproc, rounds, alone, unobserved = [], 0, 0, 0, 0
         while pending:
             rounds += 1
             files = []
+            if rounds >= 4:
+                # what is left after three rounds goes one program per file - a seeded sample of at most ALONE_MAX of them when a
+                # defect makes (nearly) every file fail; the others stay unobserved (counted; no verdict without a violation)
+                left = [u for _, _, us in pending for u in us]
+                if len(left) > ALONE_MAX:
+                    keep = set(id(u) for u in rng.sample(left, ALONE_MAX))
+                    unobserved += len(left) - ALONE_MAX
+                    pending = [(sh, vi, [u for u in us if id(u) in keep]) for sh, vi, us in pending]
+                    pending = [x for x in pending if x[2]]
             for g, (shape, vi, us) in enumerate(pending):
                 pack = PACK if rounds < 4 else 1
                 for k in range(0, len(us), pack):
@@ -736,6 +746,7 @@ def run():
                 raise vf.NoVerdict("packed files do not settle")
         chk.cov["rounds"] = rounds
         chk.cov["units_observed_alone"] = alone
+        chk.cov["units_not_observed"] = unobserved
         fmt_selftest(chk, sd, ego, env, _FMT.get("gen_sample", []) + _FMT.get("corpus_sample", [])) if dev else None
         # 5. the repository's own files
         crecs, n2 = ([], 0) if dev else corpus_stage(chk, sd, ego, env, rng, thorough)
@@ -791,6 +802,8 @@ def run():
                                            "source": rec.get("_src", ""), "formatted": rec.get("_fmt", ""),
                                            "shape": rec.get("_shape", rec["key"]["shape"]),
                                            "cwd": os.path.join(vf.REPO, os.path.dirname(rec["id"])) if rec["kind"] == "corpus" else ""})
+        if unobserved and not bad:
+            raise vf.NoVerdict("%d programs could not be observed (every packed file fails) and no violation was found among the others" % unobserved)
         # 7. binding self-test: corrupted records of units that passed must be rejected, each for its clause
         good = [x for x in recs if x["orig"]["status"] == "ok" and x["orig"]["out"] == x["exp"]["out"] and x["cin"]][:3] or \
                [x for x in recs if x["orig"]["status"] == "ok" and x["orig"]["out"] == x["exp"]["out"]][:3]
